@@ -312,6 +312,9 @@ rule('D19', 'tmpl_group_help', r'^([ \t]*)(\S[^\n]*)\n[ \t]*\.or_else\(\|(\w+)\|
      flags=re.M | re.S)
 
 
+LENIENT = [False]   # set by the runner when it retries: a rule that does not match is skipped (and logged) instead of raised
+
+
 def apply(module, src, log):
     _cnt[0] = 0   # parameter numbering restarts with every module text (several mirrors are built per process)
     for r in RULES:
@@ -319,8 +322,16 @@ def apply(module, src, log):
             continue
         matches = list(r['pat'].finditer(src))
         if r['count'] is not None and len(matches) != r['count']:
-            raise DesugarMismatch('%s.rs: desugaring %s expected %d site(s), found %d (pattern %s)'
-                                  % (module, r['id'], r['count'], len(matches), r['pat'].pattern))
+            msg = ('%s.rs: desugaring %s expected %d site(s), found %d (pattern %s)'
+                   % (module, r['id'], r['count'], len(matches), r['pat'].pattern))
+            if LENIENT[0]:
+                # the idiom is left as it is: the function that contains it will be rejected by the front end and
+                # externalised by the runner (its contract assumed, the properties it carries undecided)
+                log.append({'rule': r['id'], 'file': module + '.rs', 'line': 0, 'what': 'SKIPPED (site mismatch): ' + msg})
+                if len(matches) == 0:
+                    continue
+            else:
+                raise DesugarMismatch(msg)
         for m in matches:
             line = src.count('\n', 0, m.start()) + 1
             log.append({'rule': r['id'], 'file': module + '.rs', 'line': line,
